@@ -1,0 +1,26 @@
+//! Verification hook (only compiled with `--cfg crux_verif`): named schedule points.
+//!
+//! `point(name)` is a no-op unless a controller has been installed; a controller can park the
+//! calling thread to force a chosen interleaving of concurrent callers. Points are placed where
+//! no lock is held.
+use std::sync::{Arc, RwLock};
+
+pub type Controller = Arc<dyn Fn(&'static str) + Send + Sync>;
+
+static CONTROLLER: RwLock<Option<Controller>> = RwLock::new(None);
+
+/// Install (or, with `None`, remove) the schedule-point controller.
+pub fn install(controller: Option<Controller>) {
+    *CONTROLLER.write().expect("verif controller lock poisoned") = controller;
+}
+
+#[inline]
+pub fn point(name: &'static str) {
+    let controller = CONTROLLER
+        .read()
+        .expect("verif controller lock poisoned")
+        .clone();
+    if let Some(controller) = controller {
+        controller(name);
+    }
+}
